@@ -43,7 +43,10 @@ def cd_cases(inst, rnd, thorough):
     for j in js:
         cases.append({"field": "k_is.%d" % j, "op": "+1"})
     ng = len(cd["gates"])
-    for g in (range(ng) if thorough else rnd.sample(range(ng), 3)):
+    # a gate without constraints (Gates.tla: NumConstraints(NoopGate) = 0) contributes nothing to the identity, whatever its filter:
+    # the proof does not depend on its selector index, so changing it is not a case of the property
+    constrained = [g for g in range(ng) if not cd["gates"][g].startswith("NoopGate")]
+    for g in (constrained if thorough else rnd.sample(constrained, 3)):
         cases.append({"field": "selectors_info.selector_indices.%d" % g, "op": "set:%d" % ((cd["selectors_info"]["selector_indices"][g] + 1) % len(cd["selectors_info"]["groups"]))})
     for gi in range(len(cd["selectors_info"]["groups"])):
         cases.append({"field": "selectors_info.groups.%d.start" % gi, "op": "+1"})
